@@ -244,7 +244,6 @@ impl<C: PixelColor> DrawTarget for Rec<C, true> {
         for p in area.points() {
             match it.next() {
                 Some(c) => {
-                    n += 1;
                     self.map.insert((p.x, p.y), c);
                     if self.log_calls {
                         got.push(c);
